@@ -31,7 +31,7 @@ mod real {
     /// Second file of a directory-mode case: delimiters 4/7, one wrong and one right expectation.
     const B_FIXED: &str = "====\nb one\n====\nx = 1;\n-------\n\n(wrong)\n\n===\nb two\n:error\n===\ny = ;\n---\n\n(source)\n";
 
-    const LANGS: [(&str, &str); 3] = [("main", "stmt"), ("other", "lst"), ("xf", "fldx")];
+    const LANGS: [(&str, &str); 4] = [("main", "stmt"), ("other", "lst"), ("xf", "fldx"), ("xq", "qtok")];
 
     fn hx(b: &[u8]) -> String {
         if b.is_empty() {
@@ -241,7 +241,10 @@ mod real {
             // 5. a :cst test carried over by a filtered update keeps its expectation ("first" matches --exclude [io])
             let a5 = self.probe_update("===\nfirst\n:cst\n===\na = 1;\n---\n\n0:0 - 0:6 source\n\n===\nup\n===\nc = 3;\n---\n\n(wrong)\n", 'x');
             let keep_cst_filtered = a5.contains("0:0 - 0:6 source");
-            vec![keep_unrun, one_correction, keep_suffix_preamble, quote_reset, keep_cst_filtered]
+            // 6. inside a quoted token a quote character of the same kind is text: (MISSING """)
+            let f6 = tree_sitter::format_sexp("(a (MISSING \"\"\") (b (MISSING \"'\")) (c))", 0);
+            let same_quote = f6 == "(a\n  (MISSING \"\"\")\n  (b\n    (MISSING \"'\"))\n  (c))";
+            vec![keep_unrun, one_correction, keep_suffix_preamble, quote_reset, keep_cst_filtered, same_quote]
         }
 
         /// `filter`: n / i / x = update of the single file; N / I / X = the same filter, but the update is run on the
@@ -324,18 +327,45 @@ mod real {
         "name with trailing dots...", "= equals in name =", "- dash -", "semi;colon", "tab\tinside", ":colon start", "ends with colon:", "two\nlines",
         "three\nline\nname",
     ];
-    const STMT_INPUTS: [&str; 18] = [
+    const STMT_INPUTS: [&str; 22] = [
         "a = 1;", "foo(x, y);", "if a { b = 2; } else { c = 3; }", "while x < 3 { x = x + 1; }", "return;", "return 'a b';", "x1 = (a + b) - c;",
         "{ }", "// comment\na = b;", "a = 1;\nb = 2;\n\nc = 3;", "f();\n", "a == b;", "a = ;", "if { x",
         // recovered by INSERTING a token: the tree has a MISSING node and no ERROR node
         "a = 1", "return x", "f(1)", "while x { y = 2 }",
+        // quote characters inside quoted tokens of BOTH kinds in one rendering: (UNEXPECTED '"') ... (MISSING ")")
+        "x = \"; y = (a;", "x = (\" a;", "a = \"b\" ; y = (c + 1;", "f(\" ; g = (1;",
     ];
     const LST_INPUTS: [&str; 6] = ["ab cd", "(a b (c))", "é € 12", "a\nb\n\nc", "( a", "x ? y"];
     // language `xf` (zoo/fldx): field names with digits, upper-case letters, a leading underscore next to ordinary ones
-    const FX_INPUTS: [&str; 12] = [
+    const FX_INPUTS: [&str; 14] = [
         "f(1)", "f(a, 2)", "g(a, b, c) -> r", "f(g(1), 2) h()", "f()", "k(1, 2, 3, 4)", "f(g(h(1, 2), 3) -> r, 4, 5)", "ab(zz) -> k\ng(0)",
-        "f(1,, 2)", "f(1", "k(1) ->", "f(1 2)",
+        "f(1,, 2)", "f(1", "k(1) ->", "f(1 2)", "f(\" 1", "f(1) \" g(",
     ];
+
+    // language `xq` (zoo/qtok): `'`, `"`, `(`, `)` are anonymous tokens, so error recovery prints (MISSING "'"), (MISSING """),
+    // (MISSING ")") side by side: a quoted token holding the OTHER quote character followed by a quoted `)`
+    const XQ_INPUTS: [&str; 14] = [
+        "a bc", "'a' \"b\" (c d)", "[ a , 'b' ]", "( [ 'q' , \"zz\" ] )",
+        "[ \"a , 'b ] (", "'a' \"b\" (c", "( \" a ) '", "[ a , 'b' ] \"c", "'a (b", "\"a (b", "[ 'a , (b", "( 'a ) (b", "[ 'a , \"b ] ( c", "( a",
+    ];
+
+    /// An S-expression spread over lines WITHOUT the code under test (`tree_sitter::format_sexp` is what `--update` uses to
+    /// rewrite expectations): a line break and two blanks in front of every ` (` that starts a node.  Indentation is
+    /// irrelevant to the reader (white space is collapsed), so the expectation means the same.
+    fn own_format(s: &str) -> String {
+        let b: Vec<char> = s.chars().collect();
+        let mut out = String::new();
+        let mut i = 0;
+        while i < b.len() {
+            if b[i] == ' ' && i + 2 < b.len() && b[i + 1] == '(' && (b[i + 2].is_ascii_alphabetic() || b[i + 2] == '_') {
+                out.push_str("\n  ");
+            } else {
+                out.push(b[i]);
+            }
+            i += 1;
+        }
+        out
+    }
 
     /// Field names removed from an S-expression the way the documentation of corpus tests describes it (`name: (` -> `(`
     /// for every field name the GRAMMARS of this check use: letters, digits, `_`), written independently of the CLI's
@@ -465,6 +495,8 @@ mod real {
                     s.push_str(self.pk(&LST_INPUTS));
                 } else if lang == "xf" {
                     s.push_str(self.pk(&FX_INPUTS));
+                } else if lang == "xq" {
+                    s.push_str(self.pk(&XQ_INPUTS));
                 } else if self.rng.chance(1, 3) {
                     let budget = *self.rng.pick(&[3usize, 8, 20]);
                     let toks = self.gg.sentence(&mut self.rng, budget);
@@ -529,7 +561,9 @@ mod real {
             let _ = &sp;
             let plain_own = own_strip(&sf);
             let sp = plain_own;
-            let good = tree_sitter::format_sexp(if self.rng.chance(1, 4) { &sf } else { &sp }, 0);
+            let which = if self.rng.chance(1, 4) { &sf } else { &sp };
+            // half of the well-formatted expectations come from the generator's own line breaking, not from the code under test
+            let good = if self.rng.chance(1, 2) { own_format(which) } else { tree_sitter::format_sexp(which, 0) };
             match self.rng.below(10) {
                 0 => String::new(),
                 1 => "(source (number))".to_string(),
@@ -614,6 +648,9 @@ mod real {
                 if lang == "main" && !attrs.iter().any(|a| a.contains(":language")) && self.rng.chance(1, 7) {
                     attrs.push(":language(xf)".to_string());
                     lang = "xf".to_string();
+                } else if lang == "main" && !attrs.iter().any(|a| a.contains(":language")) && self.rng.chance(1, 7) {
+                    attrs.push(":language(xq)".to_string());
+                    lang = "xq".to_string();
                 }
                 let input = self.input(&lang, &suffix, dlen, hlen);
                 let expected = self.expectation(&lang, &input, cst, &suffix, dlen, hlen);
@@ -690,7 +727,7 @@ mod real {
         // a harmless rewrite changes nothing.
         let probes = world.probe_repairs();
         writeln!(out, "fixes {}", probes.iter().map(|b| if *b { "1" } else { "0" }).collect::<Vec<_>>().join(" ")).unwrap();
-        eprintln!("c20: probed repairs keepUnrun,oneCorrection,keepSuffixPreamble,quoteReset,keepCstFiltered = {probes:?}");
+        eprintln!("c20: probed repairs keepUnrun,oneCorrection,keepSuffixPreamble,quoteReset,keepCstFiltered,sameQuote = {probes:?}");
         if args.get(3).map(|s| s == "--spec").unwrap_or(false) {
             let specs = std::fs::read_to_string(&args[4]).unwrap();
             for (i, line) in specs.lines().enumerate() {
